@@ -115,6 +115,51 @@ Theorem C20_collect_is_whole_2d : forall (xstart xsize : Q) (xcount : N) (ystart
             map fst v = map fst (snd whole) /\ leq2 (map snd v) (map snd (snd whole)).
 Proof. exact collect_is_whole2. Qed.
 
+(* collect_history - histories on the same partial results.  In the model a partial result is a value and
+   cannot change, so "every partial result is still the binning of its own part after any number of
+   collects" holds by construction (it is the correspondence run that checks it on the real, mutable
+   objects: H1/H2 cases).  The remaining statement: EVERY collect of a history - any selection of the parts,
+   any order, with repetition - returns the binning of the concatenation of the selected parts. *)
+Theorem C20_collect_history : forall (start size : Q) (count : N) (parts : list (list (Q * Q))) (steps : list (list nat)),
+  let a := new_axis start size count in
+  Forall (fun idxs => idxs <> [] ->
+            let sel := map (fun i => nth i parts []) idxs in
+            exists v, collect1 (map (binning a) sel) = COk (fst (binning a (concat sel)), v) /\
+                      leq v (snd (binning a (concat sel)))) steps.
+Proof. exact collect_history1. Qed.
+
+Theorem C20_collect_history_2d : forall (xstart xsize : Q) (xcount : N) (ystart ysize : Q) (ycount : N)
+  (parts : list (list (Q * Q * Q))) (steps : list (list nat)),
+  let ax := new_axis xstart xsize xcount in
+  let ay := new_axis ystart ysize ycount in
+  Forall (fun idxs => idxs <> [] ->
+            let sel := map (fun i => nth i parts []) idxs in
+            let whole := binning_2d ax ay (concat sel) in
+            exists v, collect2 (map (binning_2d ax ay) sel) = COk (fst whole, v) /\
+                      map fst v = map fst (snd whole) /\ leq2 (map snd v) (map snd (snd whole))) steps.
+Proof. exact collect_history2. Qed.
+
+(* descr_observers - the description as a map (value.bin is a MapStorage; Map.IsAvail/GetM/ContainsKey/
+   List/Size/Equals modelled as the code computes them, IsAvail from the ok flag of Get): every observer
+   answers from the description record, whose bounds are those of C20_descr_is_spec: min is available,
+   gettable, contained and listed exactly for i <> 0, max exactly for i <> count+1, str always, other keys
+   never; size() counts the listed entries; d = d *)
+Theorem C20_descr_record : forall (a : axis) (i : Z), descr_of_bin (get_bin a i) = get_descr a i.
+Proof. exact descr_of_get_bin. Qed.
+
+Theorem C20_descr_observers : forall (a : axis) (i : Z), (2 <= a_bins a)%Z ->
+  let b := get_bin a i in
+  let d := get_descr a i in
+  (map_is_avail b [KMin] = true <-> i <> 0%Z) /\ (map_is_avail b [KMax] = true <-> i <> (a_bins a - 1)%Z) /\
+  map_is_avail b [KStr] = true /\ map_is_avail b [KOther] = false /\
+  map_get b KMin = opt_num (fst d) /\ map_get b KMax = opt_num (snd d) /\
+  map_get b KStr = Some BStr /\ map_get b KOther = None /\
+  (forall k, map_contains b k = map_is_avail b [k]) /\
+  (forall k, kv_get (bin_iter b) k = map_get b k) /\
+  bin_size b = N.of_nat (length (bin_iter b)) /\
+  bin_equals_self b = true.
+Proof. exact descr_observers. Qed.
+
 (* non-vacuity: a grid with size > 0, elements on an edge, in both outer bins and far outside, split in
    three parts (one empty); the computed result is the expected one *)
 Example C20_nonvacuous :
@@ -142,3 +187,7 @@ Print Assumptions C20_binning_additive.
 Print Assumptions C20_binning_additive_2d.
 Print Assumptions C20_collect_is_whole.
 Print Assumptions C20_collect_is_whole_2d.
+Print Assumptions C20_collect_history.
+Print Assumptions C20_collect_history_2d.
+Print Assumptions C20_descr_record.
+Print Assumptions C20_descr_observers.
